@@ -37,16 +37,25 @@ func regexpFromGlob(pattern string) string {
 	// https://github.com/google/re2/wiki/Syntax
 	// glob (programming) - Wikipedia
 	// https://en.wikipedia.org/wiki/Glob_(programming)
-	repstrs := []struct {
-		old string
-		new string
-	}{
-		{old: "*", new: ".*"},
-		{old: "?", new: "."},
+	// '*' matches any sequence of characters, '?' matches any single character,
+	// and any other character (including the regexp metacharacters) matches only itself.
+	var re2Pattern strings.Builder
+	re2Pattern.WriteString("(?s)^")
+	literalStart := 0
+	for n := 0; n < len(pattern); n++ {
+		c := pattern[n]
+		if c != '*' && c != '?' {
+			continue
+		}
+		re2Pattern.WriteString(regexp.QuoteMeta(pattern[literalStart:n]))
+		if c == '*' {
+			re2Pattern.WriteString(".*")
+		} else {
+			re2Pattern.WriteString(".")
+		}
+		literalStart = n + 1
 	}
-	re2Pattern := pattern
-	for _, repstr := range repstrs {
-		re2Pattern = strings.ReplaceAll(re2Pattern, repstr.old, repstr.new)
-	}
-	return "^" + re2Pattern + "$"
+	re2Pattern.WriteString(regexp.QuoteMeta(pattern[literalStart:]))
+	re2Pattern.WriteString("$")
+	return re2Pattern.String()
 }
